@@ -19,23 +19,36 @@ _DATA = EvaluatableData(body={}, edifact_format=FMT, edifact_format_version=VER)
 _configured = False
 
 
+_OURS = [None]
+
+
 def configure():
     global _configured
     evs = [DictBasedRcEvaluator(_RC), DictBasedFcEvaluator(_FC), DictBasedHintsProvider(_HINTS), DictBasedPackageResolver(_PKG)]
     for e in evs:
         e.edifact_format, e.edifact_format_version = FMT, VER
+    provider = SingletonTokenLogicProvider(evs)
 
     def cfg(binder):
-        binder.bind(TokenLogicProvider, SingletonTokenLogicProvider(evs))
+        binder.bind(TokenLogicProvider, provider)
         binder.bind_to_provider(EvaluatableDataProvider, lambda: _DATA)
 
     inject.clear_and_configure(cfg)
+    _OURS[0] = provider
     _configured = True
+
+
+def _still_ours():
+    """somebody else (a harness with its own evaluators, a generator) may have re-configured the injector since: the flag alone does not tell"""
+    try:
+        return inject.is_configured() and inject.instance(TokenLogicProvider) is _OURS[0]
+    except Exception:  # pylint: disable=broad-except
+        return False
 
 
 def set_cer(rc=None, hints=None, fc=None, packages=None):
     """rc: {key: state name}; hints: {key: str|None}; fc: {key: (bool, msg|None)}; packages: {key: expr|None}"""
-    if not _configured:
+    if not _configured or not _still_ours():
         configure()
     _RC.clear()
     _RC.update({k: ConditionFulfilledValue[v] for k, v in (rc or {}).items()})
